@@ -3,6 +3,7 @@ package rules
 import (
 	"go/constant"
 	"go/types"
+	"strings"
 
 	"golang.org/x/tools/go/ssa"
 
@@ -233,7 +234,17 @@ func isParam(v ssa.Value, prm *ssa.Parameter) bool {
 	}
 	if al, ok := v.(*ssa.Alloc); ok {
 		sts := eng.CellStores(al)
-		return len(sts) == 1 && sts[0].Val == prm
+		if len(sts) != 1 {
+			return false
+		}
+		if sts[0].Val == ssa.Value(prm) {
+			return true
+		}
+		// (the spill cell of a helper's own parameter, bound at its call site)
+		if _, isP := sts[0].Val.(*ssa.Parameter); isP {
+			return eng.OriginX(sts[0].Val) == ssa.Value(prm) || eng.OriginX(sts[0].Val) == eng.OriginX(prm)
+		}
+		return false
 	}
 	if fv, ok := v.(*ssa.FreeVar); ok {
 		if cell := eng.CellOf(fv); cell != nil {
@@ -259,7 +270,44 @@ func constAction(v ssa.Value) (string, bool) {
 // operands: the object whose Permissions field is the receiver, action, name.
 func allowCall(cc *ssa.CallCommon) (holder ssa.Value, action ssa.Value, name ssa.Value, ok bool) {
 	if !eng.CalleeIs(cc, "acl", "Rules.Allow") || len(cc.Args) != 3 {
-		return nil, nil, nil, false
+		// a one-line wrapper in package db: func (c Caller) allows(a, n) bool
+		// { return c.Permissions.Allow(a, n) }, judged with the arguments of
+		// this call
+		h := eng.Callee(cc)
+		if h == nil || h.Blocks == nil || eng.FuncPkg(h) == nil || !strings.HasSuffix(eng.FuncPkg(h).Path(), "/db") || cc.IsInvoke() || len(cc.Args) != len(h.Params) {
+			return nil, nil, nil, false
+		}
+		rets := eng.Returns(h)
+		if len(rets) != 1 || len(eng.RetVals(rets[0])) != 1 {
+			return nil, nil, nil, false
+		}
+		ic, _ := eng.TupleCall(eng.RetVals(rets[0])[0])
+		if ic == nil || !eng.CalleeIs(&ic.Call, "acl", "Rules.Allow") || len(ic.Call.Args) != 3 {
+			return nil, nil, nil, false
+		}
+		arg := func(v ssa.Value) ssa.Value {
+			o := eng.Origin(v)
+			if al, isAl := o.(*ssa.Alloc); isAl {
+				if sts := eng.CellStores(al); len(sts) == 1 {
+					o = sts[0].Val
+				}
+			}
+			for i, q := range h.Params {
+				if ssa.Value(q) == o {
+					return cc.Args[i]
+				}
+			}
+			return nil
+		}
+		fr, base, isField := eng.LoadedField(ic.Call.Args[0])
+		if !isField || !fr.Is("db", "Caller", "Permissions") {
+			return nil, nil, nil, false
+		}
+		hv, av, nv := arg(base), arg(ic.Call.Args[1]), arg(ic.Call.Args[2])
+		if hv == nil || av == nil || nv == nil {
+			return nil, nil, nil, false
+		}
+		return hv, av, nv, true
 	}
 	fr, base, isField := eng.LoadedField(eng.OriginX(cc.Args[0]))
 	if !isField || !fr.Is("db", "Caller", "Permissions") {
